@@ -327,3 +327,7 @@ def run(rep: Report, prog: Program, tier: str) -> None:
     rep.rule("C13-CLOSEALL", "closing the association closes the channels in every container that can hold one", min_instances=2)
     from .common import close_all_channels_rule
     close_all_channels_rule(rep, prog, PROP, "C13-CLOSEALL")
+
+    # ---------------- C13-LIFE (rules/C13life.py): lifecycle scenarios between two abstract transports
+    from .C13life import run_life
+    run_life(rep, prog, tier)
